@@ -99,15 +99,19 @@ func (c *countChannel) Send(e event.Event) { atomic.AddInt64(&c.n, 1) }
 
 // ---- resource probes ----
 
+// one reusable dump buffer: the collector is off, garbage must not pile up to the memory limit
+var stackBuf = make([]byte, 1<<20)
+var stackBuf2 = make([]byte, 1<<20)
+
 func honeytrapGoroutines() int {
-	buf := make([]byte, 1<<20)
+	var buf []byte
 	for {
-		n := runtime.Stack(buf, true)
-		if n < len(buf) {
-			buf = buf[:n]
+		n := runtime.Stack(stackBuf, true)
+		if n < len(stackBuf) {
+			buf = stackBuf[:n]
 			break
 		}
-		buf = make([]byte, 2*len(buf))
+		stackBuf = make([]byte, 2*len(stackBuf))
 	}
 	cnt := 0
 	for _, g := range bytes.Split(buf, []byte("\n\n")) {
@@ -237,10 +241,15 @@ var (
 // waitAccepted: a client that does not pipeline - it goes on only once the server has
 // accepted its data connection (the accept goroutine of the passive socket has finished)
 func waitAccepted() {
-	buf := make([]byte, 1<<18)
 	for i := 0; i < 1500; i++ {
-		n := runtime.Stack(buf, true)
-		if !bytes.Contains(buf[:n], []byte("GoListenAndServe.func1")) {
+		heldMu.Lock()
+		n := runtime.Stack(stackBuf2, true)
+		ok := n < len(stackBuf2) && !bytes.Contains(stackBuf2[:n], []byte("GoListenAndServe.func1"))
+		if n >= len(stackBuf2) {
+			stackBuf2 = make([]byte, 2*len(stackBuf2))
+		}
+		heldMu.Unlock()
+		if ok {
 			return
 		}
 		time.Sleep(200 * time.Microsecond)
